@@ -24,6 +24,10 @@ var (
 //
 //wsym:replace github.com/transparency-dev/witness/omniwitness.Main
 func verifMainModel(ctx context.Context, operatorConfig omniwitness.OperatorConfig, p omniwitness.LogStatePersistence, httpListener net.Listener, httpClient *http.Client) error {
+	if rt.Param("wire", 0) == 1 {
+		// H-WIRE runs the real function
+		return omniwitness.Main(ctx, operatorConfig, p, httpListener, httpClient)
+	}
 	verifMainCalled++
 	verifMainP, verifMainCfg = p, operatorConfig
 	return nil
